@@ -45,10 +45,6 @@ Definition repr_of_sarr (a : sarr) (fill : Z) : option reprZ :=
   | _ => None
   end.
 
-(* SArr.sarr_wfb with the 0-d GCXS case of Convert.gcxs_wf0 *)
-Definition sarr_wf5 (a : sarr) : bool :=
-  match a with SGcxs g => gcxs_wf0 g | _ => sarr_wfb a end.
-
 Definition is_exc (a : sarr) : bool := match a with SExc _ => true | _ => false end.
 Definition is2d (sh : shape) : bool := match sh with [_; _] => true | _ => false end.
 
@@ -60,12 +56,12 @@ Definition fill_okb (a : sarr) (fill : Z) : bool :=
    | 3 not in canonical form *)
 Definition compare_result (m : reprZ) (o : sarr) (sh : shape) (fill : Z) (flat : list Z) : Z :=
   if negb (sarr_same_dense o sh flat && fill_okb o fill) then 2
-  else if negb (sarr_wf5 o) then 3
+  else if negb (sarr_wfb o) then 3
   else if negb (sarr_eqb (sarr_of_repr m) o) then 1 else 0.
 
 Definition spec_only (o : sarr) (sh : shape) (fill : Z) (flat : list Z) : Z :=
   if negb (sarr_same_dense o sh flat && fill_okb o fill) then 2
-  else if negb (sarr_wf5 o) then 3 else 0.
+  else if negb (sarr_wfb o) then 3 else 0.
 
 (* ------------------------------------------------------------------ conversion chains *)
 (* initial canonical COO; executed hops with a flag "through scipy.sparse" (then the hop also
@@ -88,7 +84,7 @@ Fixpoint judge_hops (i : Z) (sh : shape) (fill : Z) (flat : list Z) (st : option
       let valid := hop_okb sh f && (negb sc || (is2d sh && (fill =? 0))) in
       let code :=
         if negb valid then (if is_exc o then 0 else 6)
-        else match convert Z Z.eqb Z.add f r with
+        else match convert Z.eqb Z.add f r with
              | Raise _ => if is_exc o then 5 else spec_only o sh fill flat
              | Ok m => if is_exc o then 4 else
                        match o with SHang | SOther | SScalar _ => 4 | _ => compare_result m o sh fill flat end
@@ -147,24 +143,24 @@ Definition judge_make (c : mk_case) : Z :=
                    (spec_flat sh (combine coords data) fill)
   | MkIter sh items fill f o =>
     let valid := forallb (fun kv => in_rangeb sh (fst kv)) items && hop_okb sh f in
-    judge_model_vs (bind (from_iter_pairs Z.eqb Z.add sh items fill) (fun x => convert Z Z.eqb Z.add f (RCoo x)))
+    judge_model_vs (bind (from_iter_pairs Z.eqb Z.add sh items fill) (fun x => convert Z.eqb Z.add f (RCoo x)))
                    valid o sh fill (spec_flat sh items fill)
   | MkDense d fill f o =>
     let valid := (length (d_flat d) =? length (all_indices (d_shape d)))%nat && hop_okb (d_shape d) f in
-    judge_model_vs (convert Z Z.eqb Z.add f (RDense d fill)) valid o (d_shape d) fill (d_flat d)
+    judge_model_vs (convert Z.eqb Z.add f (RDense d fill)) valid o (d_shape d) fill (d_flat d)
   | MkScipyCoo sh coords data f o =>
     let valid := forallb (in_rangeb sh) coords && (length data =? length coords)%nat && hop_okb sh f in
     judge_model_vs (bind (coo_make_checked Z.eqb Z.add false true false sh coords data 0)
-                         (fun x => convert Z Z.eqb Z.add f (RCoo x)))
+                         (fun x => convert Z.eqb Z.add f (RCoo x)))
                    valid o sh 0 (spec_flat sh (combine coords data) 0)
   | MkScipyCs axis sh data indices indptr pass f o =>
     let g := mkGCXS sh [axis] data indices indptr 0 in
     let rows := row_numbers indptr in
     let coords := map (fun rc => if axis =? 0 then [fst rc; snd rc] else [snd rc; fst rc]) (combine rows indices) in
     let flat := spec_flat sh (combine coords data) 0 in
-    if gcxs_wf0 g then
+    if gcxs_wfb g then
       (* canonical input: the result is the canonical form in the requested format *)
-      judge_model_vs (convert Z Z.eqb Z.add f (RGcxs g)) (hop_okb sh f) o sh 0 flat
+      judge_model_vs (convert Z.eqb Z.add f (RGcxs g)) (hop_okb sh f) o sh 0 flat
     else
       (* non-canonical input: the code passes the arrays through (pass = true: into a compressed
          format of the same orientation); the Spec still demands a canonical result with the
